@@ -16,9 +16,16 @@ logging subclasses from outside (no source change).
 The module is used in-process for thread pools (run_case) and as a child script for process pools
 (`python c10_driver.py` reads cases from stdin, writes observations to stdout), where the events and
 the gates live in a multiprocessing.Manager.
+
+Bundles: a task whose file is a list of files is read through the nested collect() of the wrapper.  The
+function handed to map()/imap() reports the list of contents it was called with (`args` of the
+observation); `rnone` lists files for which the reader returns None (collect drops such contents);
+`inner_order` (task -> order of member indices) forces the completion order of the member reads of a
+bundle inside the nested collect (process-local events: all members of a bundle are read in one process).
 """
 import datetime as dt
 import json
+import os
 import shutil
 import sys
 import tempfile
@@ -119,8 +126,13 @@ class Recorder:
         self.abort = threading.Event()
         self.stuck = []
         self.consumer = threading.get_ident()
+        self.pid = os.getpid()      # the consumer lives in this process (pool workers are forked copies)
         self.key_of_path = {}       # (fileset name, path) -> task key (name, k)
         self.bundle_size = {}
+        self.args = {}              # task key -> list of positions the function was called with
+        self.pools = []             # executor classes instantiated by the consumer thread (the top-level pools)
+        self.member_evt = {}        # (name, pos) -> threading.Event: the read of this member has ended
+        self.member_lock = threading.Lock()
 
     def new_event(self):
         return threading.Event()
@@ -147,6 +159,37 @@ class Recorder:
                 return
             self.finished.add(key)
             self.events.append(("finish", key[0], key[1]))
+
+    def note_args(self, key, got):
+        with self.lock:
+            self.args[key] = list(got)
+
+    # member reads of one bundle (always inside one process: plain threading events, created on demand)
+    def _mevt(self, mkey):
+        with self.member_lock:
+            ev = self.member_evt.get(mkey)
+            if ev is None:
+                ev = self.member_evt[mkey] = threading.Event()
+            return ev
+
+    def member_wait(self, mkey, pred):
+        ev = self._mevt(pred)
+        t_end = time.time() + stuck_limit()
+        while not ev.wait(0.02):
+            if self.abort.is_set():
+                return
+            if time.time() > t_end:
+                self.note_stuck([["member", mkey[0], mkey[1]], ["member", pred[0], pred[1]]])
+                self.abort.set()
+                return
+
+    def member_done(self, mkey):
+        self.log("mread", mkey)
+        self._mevt(mkey).set()
+
+    def note_stuck(self, item):
+        with self.lock:
+            self.stuck.append(item)
 
     def release(self, key):
         ev = self.done_evt.get(key)
@@ -185,22 +228,34 @@ def reader(file_info, **kwargs):
     key = CUR.key_of_path[(name, file_info.path)]
     CUR.gate(key)
     pos = CASE["_pos_of_path"][file_info.path]
-    nread = CUR.count("read_calls", (name, pos))
-    if pos in CASE["_rfail"][name]:
-        CUR.finish(key)
-        raise ReadErr(2000 + pos)
-    if CASE["_finish_in_reader"] and CUR.count("task_reads", key) >= CUR.bundle_size[key]:
-        # pass-through function (collect / icollect / align): the task ends with its last read
-        CUR.finish(key)
-    return {"pos": pos, "name": name, "nread": nread}
+    mpred = CASE["_member_pred"].get((name, pos), False)
+    if mpred is not False:
+        # a member of a bundle with a forced inner order: wait for the member that has to end before
+        if mpred is not None:
+            CUR.member_wait((name, pos), (name, mpred))
+    try:
+        nread = CUR.count("read_calls", (name, pos))
+        if pos in CASE["_rfail"][name]:
+            CUR.finish(key)
+            raise ReadErr(2000 + pos)
+        if CASE["_finish_in_reader"] and CUR.count("task_reads", key) >= CUR.bundle_size[key]:
+            # pass-through function (collect / icollect / align): the task ends with its last read
+            CUR.finish(key)
+        if pos in CASE["_rnone"][name]:
+            return None
+        return {"pos": pos, "name": name, "nread": nread}
+    finally:
+        if mpred is not False:
+            CUR.member_done((name, pos))
 
 
 def _task_of_content(content):
     first = content if isinstance(content, dict) else content[0]
     name = first["name"]
     key = CUR.key_of_path[(name, CASE["_path_of_pos"][name][first["pos"]])]
-    want = CASE["_stream"][name][key[1]]
+    want = [p for p in CASE["_stream"][name][key[1]] if p not in CASE["_rnone"][name]]
     got = [content["pos"]] if isinstance(content, dict) else [c["pos"] for c in content]
+    CUR.note_args(key, got)
     return key, got == list(want)
 
 
@@ -246,12 +301,26 @@ def _func_body(key, ok):
 
 # ----------------------------------------------------------------------------- executors
 
+def _in_consumer():
+    """True in the thread that calls map()/imap() -- not in a pool worker (thread or forked process): the nested
+    collect() of a bundle creates its own pool there, whose submits are not events of the model."""
+    return os.getpid() == CUR.pid and threading.get_ident() == CUR.consumer
+
+
 def make_pool_class(base):
     class CtlPool(base):
+        def __init__(self, *a, **k):
+            try:
+                if _in_consumer():
+                    CUR.pools.append(base.__name__)
+            except Exception:   # noqa
+                pass
+            super().__init__(*a, **k)
+
         def submit(self, fn, *args, **kwargs):
             key = None
             try:
-                if threading.get_ident() == CUR.consumer:
+                if _in_consumer():
                     if getattr(fn, "__name__", "") == "_call_map_function":
                         a = args[0]
                         key = _key_of_info(a[0].name, a[1])
@@ -299,7 +368,16 @@ def prepare(case, root):
             case["_pos_of_path"][p] = pos
         case["_stream"][name] = [list(b) for b in spec["stream"]]
         case["_rfail"][name] = set(spec.get("rfail", []))
-    case["_finish_in_reader"] = case["api"] in ("icollect", "collect", "align")
+    case["_rnone"] = {name: set(spec.get("rnone", [])) for name, spec in case["sets"].items()}
+    # forced completion order of the member reads inside a bundle: member -> the member that must end before it
+    case["_member_pred"] = {}
+    for k, order in (case.get("inner_order") or {}).items():
+        bundle = case["_stream"]["p"][int(k)]
+        prev = None
+        for mi in order:
+            case["_member_pred"][("p", bundle[mi])] = prev
+            prev = bundle[mi]
+    case["_finish_in_reader"] = case["api"] in ("icollect", "collect", "align") or bool(case.get("passthrough"))
     case["fraise"] = set(case.get("fraise", []))
     case["fnone"] = set(case.get("fnone", []))
 
@@ -402,6 +480,8 @@ def run_case(case, root, new_recorder=Recorder):
         STUCK_SEEN += 1
     obs["func_calls"] = {f"{k[0]}:{k[1]}": v for k, v in dict(CUR.func_calls).items()}
     obs["read_calls"] = {f"{k[0]}:{k[1]}": v for k, v in dict(CUR.read_calls).items()}
+    obs["args"] = {f"{k[0]}:{k[1]}": v for k, v in dict(CUR.args).items()}
+    obs["pools"] = list(CUR.pools)
     for k in [k for k in case if k.startswith("_")]:
         del case[k]
     case["fraise"], case["fnone"] = sorted(case["fraise"]), sorted(case["fnone"])
@@ -421,7 +501,10 @@ def _run_map_like(case, obs, FileSet, FileHandler):
     if api in ("map", "imap"):
         kw.update(worker_type=case.get("pool", "thread"), on_content=case["on_content"],
                   return_info=case["return_info"], error_to_warning=case["e2w"])
-        if case["on_content"]:
+        if case.get("passthrough"):
+            # what icollect()/collect() do, on the worker type of the case: the pass-through function on the content
+            kw.update(func=FileSet._pseudo_passer, pass_info=False)
+        elif case["on_content"]:
             kw.update(func=func_on_content, pass_info=case["pass_info"])
         else:
             kw.update(func=func_on_info)
@@ -524,6 +607,7 @@ class ManagerRecorder(Recorder):
         self.m_calls = m.list()
         self.m_finished = m.dict()
         self.m_stuck = m.list()
+        self.m_args = m.list()
         self.m_lock = m.Lock()
         self.abort = m.Event()
 
@@ -559,9 +643,17 @@ class ManagerRecorder(Recorder):
                 self.abort.set()
                 return
 
+    def note_args(self, key, got):
+        self.m_args.append((key[0], key[1], list(got)))
+
+    def note_stuck(self, item):
+        self.m_stuck.append(item)
+
     def collect_back(self):
         self.events = [tuple(e) for e in list(self.m_events)]
         self.stuck = list(self.m_stuck)
+        for a, b, got in list(self.m_args):
+            self.args[(a, b)] = list(got)
         for which, a, b in list(self.m_calls):
             getattr(self, which)[(a, b)] += 1
 
@@ -600,6 +692,8 @@ def run_case_with_sync(case, root, new, holder):
         STUCK_SEEN += 1
     obs["func_calls"] = {f"{k[0]}:{k[1]}": v for k, v in dict(CUR.func_calls).items()}
     obs["read_calls"] = {f"{k[0]}:{k[1]}": v for k, v in dict(CUR.read_calls).items()}
+    obs["args"] = {f"{k[0]}:{k[1]}": v for k, v in dict(CUR.args).items()}
+    obs["pools"] = list(CUR.pools)
     for k in [k for k in case if k.startswith("_")]:
         del case[k]
     case["fraise"], case["fnone"] = sorted(case["fraise"]), sorted(case["fnone"])
@@ -607,19 +701,29 @@ def run_case_with_sync(case, root, new, holder):
 
 
 def main():
+    """Child mode.  `--thread`: the cases run on thread pools with the in-process recorder (a parallel shard of the
+    thread-pool cases); otherwise: process-pool cases with the recorder in a multiprocessing.Manager."""
     import multiprocessing as mp
     cases = json.loads(sys.stdin.read())
     root = tempfile.mkdtemp(prefix="verif_c10p_")
     out = []
     try:
-        with mp.Manager() as mgr:
-            ManagerRecorder.mgr = mgr
+        if "--thread" in sys.argv[1:]:
             for case in cases:
                 try:
-                    out.append(run_case_with_sync(case, root, ManagerRecorder, {}))
-                except Exception as e:   # noqa
+                    out.append(run_case(case, root))
+                except Exception:   # noqa
                     import traceback
                     out.append({"crash": traceback.format_exc()[-1500:]})
+        else:
+            with mp.Manager() as mgr:
+                ManagerRecorder.mgr = mgr
+                for case in cases:
+                    try:
+                        out.append(run_case_with_sync(case, root, ManagerRecorder, {}))
+                    except Exception as e:   # noqa
+                        import traceback
+                        out.append({"crash": traceback.format_exc()[-1500:]})
     finally:
         shutil.rmtree(root, ignore_errors=True)
     sys.stdout.write("\nC10RESULT " + json.dumps(out) + "\n")
